@@ -186,8 +186,14 @@ fn job_mc(job: &Value) -> Result<Value, String> {
         let fs: Vec<&str> = run["formulas"].as_array().unwrap().iter().map(|x| x.as_str().unwrap()).collect();
         let observer = run["observer"].as_bool().unwrap_or(false);
         let mut calls = 0usize;
-        let one = |r: &GraphColoredVertices| bdd_s(r);
-        let many = |r: &Vec<GraphColoredVertices>| Value::Array(r.iter().map(bdd_s).collect());
+        // besides the BDD, what the returned OBJECT itself projects to (its own variable lists are used by vertices() / colors())
+        let proj: std::cell::RefCell<Vec<Value>> = std::cell::RefCell::new(Vec::new());
+        let one = |r: &GraphColoredVertices| {
+            let p = catch_unwind(AssertUnwindSafe(|| json!({"v": r.vertices().as_bdd().to_string(), "c": r.colors().as_bdd().to_string(), "nv": r.as_bdd().num_vars()})));
+            proj.borrow_mut().push(match p { Ok(v) => v, Err(e) => json!({"panic": panic_msg(e)}) });
+            bdd_s(r)
+        };
+        let many = |r: &Vec<GraphColoredVertices>| Value::Array(r.iter().map(|x| one(x)).collect());
         let t0 = std::time::Instant::now();
         let r = {
             let mut cb = |_: &GraphColoredVertices, _: &str| { calls += 1; };
@@ -235,6 +241,7 @@ fn job_mc(job: &Value) -> Result<Value, String> {
             }
         };
         let mut r = r;
+        r["proj"] = Value::Array(proj.into_inner());
         r["observer_calls"] = json!(calls);
         r["ms"] = json!(t0.elapsed().as_millis() as u64);
         runs.push(r);
@@ -258,9 +265,9 @@ fn job_mc(job: &Value) -> Result<Value, String> {
                     let set = GraphColoredVertices::new(b.clone(), plain.symbolic_context());
                     let i = plain.unit_colored_vertices().intersect(&set);
                     let _ = plain.pre(&i);
-                    (b.num_vars() == plain.symbolic_context().bdd_variable_set().num_vars(), i.as_bdd().to_string())
+                    (b.num_vars() == plain.symbolic_context().bdd_variable_set().num_vars(), i.as_bdd().to_string(), set.vertices().as_bdd().to_string(), set.colors().as_bdd().to_string())
                 }));
-                compat.push(match ok { Ok((same, s)) => json!({"same_num_vars": same, "and_unit": s}), Err(p) => json!({"panic": panic_msg(p)}) });
+                compat.push(match ok { Ok((same, s, ev, ec)) => json!({"same_num_vars": same, "and_unit": s, "exp_v": ev, "exp_c": ec}), Err(p) => json!({"panic": panic_msg(p)}) });
             } else { compat.push(Value::Null); }
         }
         out["plain_compat"] = Value::Array(compat);
